@@ -141,7 +141,46 @@ func forced(e *vlib.Env) vlib.Result {
 		}
 	}, wo)
 	reached := park.HasArrived()
+	// a second Run arriving while the first one is still starting handlers must be refused with an error
+	type run2 struct {
+		err   error
+		panic any
+	}
+	run2Ch := make(chan run2, 1)
+	if reached {
+		go func() {
+			var r2 run2
+			r2.panic = safely(func() { r2.err = r.Run(context.Background()) })
+			run2Ch <- r2
+		}()
+		// it returns at once (refused) or blocks behind the parked start-up
+		vlib.WaitUntil(func() bool { return len(run2Ch) > 0 }, wo)
+	}
 	park.Release()
+	if reached {
+		var r2 run2
+		gotR2 := false
+		if oc, d := vlib.WaitUntil(func() bool {
+			select {
+			case r2 = <-run2Ch:
+				gotR2 = true
+				return true
+			default:
+				return false
+			}
+		}, wo); oc == vlib.Stuck && !gotR2 {
+			// a Run that was accepted keeps running until the router closes: that is the violation
+			res.Fail("second-run-accepted", "a second Run called while the first was starting handlers did not return an error (it is still running at quiescence): %s", spec)
+			res.Witness = d
+		}
+		if gotR2 {
+			if r2.panic != nil {
+				res.Fail("second-run-panics", "a second Run called while the first was starting handlers panicked: %v (%s)", r2.panic, spec)
+			} else if r2.err == nil {
+				res.Fail("second-run-no-error", "a second Run called while the first was starting handlers returned nil (%s)", spec)
+			}
+		}
+	}
 	if !got {
 		if oc == vlib.Stuck {
 			res.Fail("started-never-closed", "Started() of a running handler never closed (quiescent): %s", spec)
